@@ -25,6 +25,36 @@ type ctl struct {
 	gating  bool
 	arrived int64
 	nextID  int
+	pending int // scheduled (logged) and not yet started, under mu
+	// seq numbers every logged step (taken inside mu for steps logged under it). The pause storm logs its own two
+	// steps with nothing but this counter — an atomic increment after Pause returned and one before Continue is
+	// called — and merges them into the log by number afterwards: sequentially consistent increments order the
+	// steps exactly as the mutex would, without putting a mutex hand-over between Pause and Continue.
+	seq    int64
+	logSeq []int64
+}
+
+func (c *ctl) add(m map[string]any) { // under mu
+	c.log = append(c.log, m)
+	c.logSeq = append(c.logSeq, atomic.AddInt64(&c.seq, 1))
+}
+
+// merged returns the log with the steps recorded by sequence number only put in their place.
+func (c *ctl) merged(extra []int64, kinds []string) []map[string]any {
+	c.mu.Lock()
+	defer c.mu.Unlock()
+	out := make([]map[string]any, 0, len(c.log)+len(extra))
+	i, j := 0, 0
+	for i < len(c.log) || j < len(extra) {
+		if j >= len(extra) || (i < len(c.log) && c.logSeq[i] < extra[j]) {
+			out = append(out, c.log[i])
+			i++
+		} else {
+			out = append(out, map[string]any{"e": kinds[j]})
+			j++
+		}
+	}
+	return out
 }
 
 type waiter struct {
@@ -35,7 +65,7 @@ type waiter struct {
 
 func (c *ctl) rec(m map[string]any) {
 	c.mu.Lock()
-	c.log = append(c.log, m)
+	c.add(m)
 	c.mu.Unlock()
 }
 
@@ -77,14 +107,18 @@ func (r *parRun) schedule(key, t int, sec bool, byT int, bySec bool) {
 	c.mu.Lock()
 	c.nextID++
 	id := c.nextID
-	c.log = append(c.log, map[string]any{"e": "sched", "id": id, "t": t, "sec": sec, "byT": byT, "bySec": bySec})
+	c.add(map[string]any{"e": "sched", "id": id, "t": t, "sec": sec, "byT": byT, "bySec": bySec})
+	c.pending++
 	c.mu.Unlock()
 	r.eng.Schedule(progEvt{timing.EventBase{ID: uint64(id), Time_: timing.VTimeInPicoSec(t), HandlerID_: "H", Secondary: sec}, key})
 }
 
 func (r *parRun) Handle(e timing.Event) error {
 	evt := e.(progEvt)
-	r.c.rec(map[string]any{"e": "start", "id": int(evt.ID)})
+	r.c.mu.Lock()
+	r.c.add(map[string]any{"e": "start", "id": int(evt.ID)})
+	r.c.pending--
+	r.c.mu.Unlock()
 	if r.spin > 0 {
 		r.rmu.Lock()
 		n := r.rng.Intn(r.spin)
@@ -113,6 +147,14 @@ type parOpts struct {
 	RunUntil bool // serial engine only: drive the run through RunUntil(t) boundaries, then Run
 	Double   bool // every pause is issued by two goroutines at once (overlapping Pause calls)
 	MinFirst int  // directed scenarios: wait until this many handlers are parked before the first release
+	// SchedInPause: while the engine is held paused (Pause returned, Continue not yet called) the pausing goroutine
+	// schedules one more primary event at the engine's current instant, as a controller inspecting a paused
+	// simulation may (monitoring2 ticks components this way). Only done when events are still queued, so that Run
+	// cannot have decided to return concurrently.
+	SchedInPause bool
+	// Storm (free-running only): Pause immediately followed by Continue, as many times as fit into the run, and
+	// after every Continue the run must make progress again (a step is logged or Run returns) within 3 s.
+	Storm bool
 }
 
 // runPar executes one program and returns its log (ending with ret).
@@ -148,6 +190,7 @@ func runPar(p program, o parOpts, rng *rand.Rand) []map[string]any {
 	var pauser sync.WaitGroup
 	var pausing int32
 	pausesLeft := o.Pauses
+	extraKey := -1000
 	startPause := func() {
 		pausesLeft--
 		atomic.StoreInt32(&pausing, 1)
@@ -163,8 +206,21 @@ func runPar(p program, o parOpts, rng *rand.Rand) []map[string]any {
 				defer pauser.Done()
 				eng.Pause()
 				c.rec(map[string]any{"e": "pause_ret"})
+				if o.SchedInPause && k == 0 {
+					// give the run loop time to come back to the pause lock, as it would while a user looks at the paused run
+					time.Sleep(300 * time.Microsecond)
+					c.mu.Lock()
+					queued := c.pending
+					c.mu.Unlock()
+					if queued > 0 {
+						extraKey--
+						r.schedule(extraKey, int(eng.CurrentTime()), false, -1, false)
+					}
+				}
 				// stay paused while the controller keeps releasing parked handlers
-				time.Sleep(hold + time.Duration(k)*time.Millisecond)
+				if !o.Storm {
+					time.Sleep(hold + time.Duration(k)*time.Millisecond)
+				}
 				c.rec(map[string]any{"e": "continue"})
 				eng.Continue()
 				if atomic.AddInt32(&left, -1) == 0 {
@@ -172,6 +228,70 @@ func runPar(p program, o parOpts, rng *rand.Rand) []map[string]any {
 				}
 			}(k)
 		}
+	}
+	if !o.Gated && o.Storm {
+		steps := func() int64 { return atomic.LoadInt64(&c.seq) }
+		var extra []int64
+		var kinds []string
+		finish := func(hang bool) []map[string]any {
+			if hang {
+				c.rec(map[string]any{"e": "hang"})
+			}
+			return c.merged(extra, kinds)
+		}
+		for pausesLeft > 0 {
+			select {
+			case <-done:
+				return finish(false)
+			default:
+			}
+			pausesLeft--
+			spin := 0
+			if rng.Intn(3) == 0 {
+				spin = rng.Intn(40)
+			}
+			eng.Pause()
+			s1 := atomic.AddInt64(&c.seq, 1)
+			if o.SchedInPause {
+				time.Sleep(300 * time.Microsecond)
+				c.mu.Lock()
+				queued := c.pending
+				c.mu.Unlock()
+				if queued > 0 {
+					extraKey--
+					r.schedule(extraKey, int(eng.CurrentTime()), false, -1, false)
+				}
+			}
+			for i := 0; i < spin; i++ {
+				_ = atomic.LoadInt64(&c.seq)
+			}
+			s2 := atomic.AddInt64(&c.seq, 1)
+			eng.Continue()
+			extra = append(extra, s1, s2)
+			kinds = append(kinds, "pause_ret", "continue")
+			at := steps()
+			deadline := time.Now().Add(3 * time.Second)
+			for n := 0; ; n++ {
+				if steps() > at {
+					break
+				}
+				select {
+				case <-done:
+					return finish(false)
+				default:
+				}
+				if n%1024 == 1023 && time.Now().After(deadline) {
+					return finish(true)
+				}
+				runtime.Gosched()
+			}
+		}
+		select {
+		case <-done:
+		case <-time.After(20 * time.Second):
+			return finish(true)
+		}
+		return finish(false)
 	}
 	if !o.Gated {
 		// free-running: pauses at random wall-clock moments (only affects which schedule is seen)
@@ -285,7 +405,8 @@ func init() {
 		if err := json.Unmarshal(raw, &in); err != nil {
 			return nil, err
 		}
-		o := parOpts{Engine: in.Engine, Procs: in.Procs, Gated: in.Gated, Policy: in.Policy, Pauses: in.Pauses, PauseMid: in.PauseMid, Spin: in.Spin, RunUntil: in.RunUntil, Double: in.Double, MinFirst: in.MinFirst}
+		o := parOpts{Engine: in.Engine, Procs: in.Procs, Gated: in.Gated, Policy: in.Policy, Pauses: in.Pauses, PauseMid: in.PauseMid, Spin: in.Spin, RunUntil: in.RunUntil, Double: in.Double, MinFirst: in.MinFirst,
+			SchedInPause: in.SchedInPause, Storm: in.Storm}
 		rng := rand.New(rand.NewSource(in.Seed))
 		f, err := os.Create(in.Out)
 		if err != nil {
@@ -298,6 +419,15 @@ func init() {
 		case "w18":
 			// two same-instant secondaries; the first schedules a same-instant primary
 			progs = append(progs, program{roots: []child{{1, 0, true}, {2, 0, true}}, kids: map[int][]child{1: {{3, 0, false}}}})
+		case "chain":
+			// one long chain of primaries, each scheduling its successor one time unit later (pause storms need a long run)
+			for i := 0; i < max(in.Programs, 1); i++ {
+				p := program{roots: []child{{1, 0, false}}, kids: map[int][]child{}}
+				for k := 1; k < in.MaxEvents; k++ {
+					p.kids[k] = []child{{k + 1, 1, rng.Intn(8) == 0}}
+				}
+				progs = append(progs, p)
+			}
 		case "w11":
 			progs = append(progs, program{roots: []child{{1, 0, false}}, kids: map[int][]child{1: {{2, 1, false}}}})
 		default:
@@ -331,17 +461,19 @@ func init() {
 }
 
 type parOptsJSON struct {
-	Engine     string `json:"engine"`
-	Procs      int    `json:"procs"`
-	ProcsCycle bool   `json:"procs_cycle"`
-	Gated      bool   `json:"gated"`
-	Policy     string `json:"policy"`
-	Pauses     int    `json:"pauses"`
-	PauseMid   bool   `json:"pause_mid"`
-	RunUntil   bool   `json:"run_until"`
-	Double     bool   `json:"double"`
-	MinFirst   int    `json:"min_first"`
-	Spin       int    `json:"spin"`
+	Engine       string `json:"engine"`
+	Procs        int    `json:"procs"`
+	ProcsCycle   bool   `json:"procs_cycle"`
+	Gated        bool   `json:"gated"`
+	Policy       string `json:"policy"`
+	Pauses       int    `json:"pauses"`
+	PauseMid     bool   `json:"pause_mid"`
+	RunUntil     bool   `json:"run_until"`
+	Double       bool   `json:"double"`
+	MinFirst     int    `json:"min_first"`
+	Spin         int    `json:"spin"`
+	SchedInPause bool   `json:"sched_in_pause"`
+	Storm        bool   `json:"storm"`
 }
 
 var _ = fmt.Sprint
